@@ -586,6 +586,7 @@ where
   let mut runner = TestRunner::new(cfg);
   let outcell = RefCell::new(std::mem::take(out));
   let failed = std::cell::Cell::new(false);
+  let first_viols: RefCell<Vec<Viol>> = RefCell::new(vec![]);
   let result = runner.run(&strat, |case| {
     if failed.get() {
       // shrinking phase: evaluate on a scratch outcome
@@ -602,7 +603,7 @@ where
       failed.set(true);
       // keep counters of everything except the violation itself (re-added after shrinking)
       scratch.viol_count = 0;
-      scratch.viols.clear();
+      *first_viols.borrow_mut() = std::mem::take(&mut scratch.viols);
       o.merge(scratch);
       let _ = before;
       return Err(TestCaseError::fail("violation"));
@@ -617,8 +618,15 @@ where
       // re-evaluate the shrunk case into the real outcome
       run_case(env, out, sub, &minimal, eval);
       if !out.has_unknown() {
-        out.note(format!("{}: shrunk case no longer fails (flaky evaluator?) {:?}", sub, minimal.a));
-        out.fail(env, Viol { sub: sub.to_string(), kind: "flaky".into(), case: minimal, key: BTreeMap::new(), desc: "shrunk case did not reproduce".into(), expected: "deterministic evaluation".into(), got: "differs between runs".into() });
+        // the violation observed on the generated case stands; only its minimisation did not reproduce
+        out.note(format!("{}: the shrunk case {:?} did not fail again; reporting the violation as first observed (not minimised)", sub, minimal.a));
+        let firsts = std::mem::take(&mut *first_viols.borrow_mut());
+        if firsts.is_empty() {
+          out.fail(env, Viol { sub: sub.to_string(), kind: "flaky".into(), case: minimal, key: BTreeMap::new(), desc: "shrunk case did not reproduce".into(), expected: "deterministic evaluation".into(), got: "differs between runs".into() });
+        }
+        for v in firsts {
+          out.fail(env, v);
+        }
       }
     }
     Err(TestError::Abort(r)) => {
@@ -822,6 +830,13 @@ pub fn write_replay(prop: &str, v: &Viol) -> PathBuf {
 
 fn report(p: &dyn Prop, env: &Env, m: Out, inconclusive: Vec<String>, wall: f64) -> i32 {
   let meta = p.meta(env);
+  // a worker may declare its own result inconclusive through a note
+  let mut inconclusive = inconclusive;
+  for n in &m.notes {
+    if let Some(rest) = n.strip_prefix("INCONCLUSIVE: ") {
+      inconclusive.push(rest.to_string());
+    }
+  }
   let evaluations: u64 = m.evals.values().sum();
   let exhaustive = !m.exhaustive.is_empty() && m.exhaustive.values().all(|b| *b);
   // known findings
